@@ -61,7 +61,7 @@ PROPS = {
         'extra': ['twin'],
     },
     'C02': {
-        'theorems': 'Properties/C02', 'obligation_files': ['Obligations/ObShape'],
+        'theorems': 'Properties/C02', 'scenarios': ['flow-timeout-giveup'], 'obligation_files': ['Obligations/ObShape'],
         'profiles': [SAO, SAOLONG, NODE, SELECT, STAKING],
         'projection': ['outcome-class'], 'monitors': ['live.'], 'families': ALL_FAM,
         'halt_is_violation': True, 'crash_is_witness': True,
@@ -72,7 +72,7 @@ PROPS = {
         'projection': ['proc.sharesBeforeModified', 'node.Node#5', 'node.Node#6'], 'monitors': ['proc.', 'twin.'], 'families': ['staking', 'node', 'block'],
     },
     'C04': {
-        'theorems': 'Properties/C04', 'scenarios': ['flow-debt-claim', 'flow-renew2-migrate'], 'obligation_files': ['Obligations/ObShape'],
+        'theorems': 'Properties/C04', 'scenarios': ['flow-debt-claim', 'flow-renew2-migrate', 'flow-timeout-giveup'], 'obligation_files': ['Obligations/ObShape'],
         'profiles': [SAO, SAOLONG],
         'projection': ['bank.Balance', 'market.Worker', 'order.Order#8', 'order.Order#6', 'order.Order#5'],
         'monitors': ['solv.market', 'solv.order', 'cons.', 'frame.supply'], 'families': ['sao', 'block', 'node'],
@@ -84,7 +84,7 @@ PROPS = {
         'monitors': ['sched.expdata_live', 'sched.meta_scheduled', 'sched.meta_expiry_is_shard_end', 'ref.model_alias', 'rollback.'], 'families': ['sao', 'block'],
     },
     'C06': {
-        'theorems': 'Properties/C06', 'scenarios': ['flow-debt-claim'], 'obligation_files': ['Obligations/ObShape', 'Proofs/Refinement'],
+        'theorems': 'Properties/C06', 'scenarios': ['flow-debt-claim', 'flow-timeout-giveup'], 'obligation_files': ['Obligations/ObShape', 'Proofs/Refinement'],
         'profiles': [SAO, SAOLONG, NODE],
         'projection': ['bank.Balance', 'bank.Supply', 'node.PledgeDebt', 'did.DidBalances'],
         'monitors': ['solv.'], 'families': ['sao', 'block', 'node', 'bank'],
@@ -121,7 +121,7 @@ PROPS = {
         'monitors': ['ref.completed_scheduled', 'sched.meta_scheduled', 'sched.expdata_live', 'sched.meta_covers_shards', 'sched.meta_covers_renewals', 'sched.meta_expiry_is_shard_end', 'sched.future'], 'families': ['block', 'sao'],
     },
     'C12': {
-        'theorems': 'Properties/C12', 'obligation_files': ['Obligations/ObShape'],
+        'theorems': 'Properties/C12', 'scenarios': ['flow-timeout-giveup'], 'obligation_files': ['Obligations/ObShape'],
         'profiles': [SAO, SAOLONG],
         'projection': ['order.Order#5', 'order.Order#6', 'order.Order#7', 'order.Order#8', 'order.Order+keys', 'sao.TimeoutOrder', 'order.Shard#1'],
         'monitors': ['sched.timeout_scheduled', 'sched.long_timeout_scheduled', 'sched.timeouts_future', 'sel.order_sps_distinct'], 'families': ['block', 'sao'],
@@ -141,7 +141,7 @@ PROPS = {
         'monitors': ['agg.'], 'families': ['sao', 'block', 'node'],
     },
     'C15': {
-        'theorems': 'Properties/C15', 'obligation_files': ['Obligations/ObShape'],
+        'theorems': 'Properties/C15', 'scenarios': ['flow-timeout-giveup'], 'obligation_files': ['Obligations/ObShape'],
         'profiles': [SELECT, SAO],
         'projection': ['select', 'node.NodeRound', 'order.Shard#6', 'order.Shard+keys'],
         'monitors': ['sel.'], 'families': ['select', 'sao', 'block'], 'crash_is_witness': True,
